@@ -421,7 +421,11 @@ class RaftNode(Entity):
             return [resp]
 
         if term >= self._current_term:
+            # The vote is per term: stepping down within the same term (a candidate
+            # yielding to the elected leader) must not forget it.
+            kept_vote = self._voted_for if term == self._current_term else None
             self._step_down(term)
+            self._voted_for = kept_vote
         self._leader = leader_id
         self._current_term = term
 
